@@ -131,6 +131,7 @@ class LogicBlockHolder:
             self.merge_nodes.pop()
             self.puml_nodes.pop()
             self.loop_kill_paths.pop()
+            self.impossible_and_or_merges.pop()
             self._merged_path_indexes.append(self._path_indexes.pop())
         return self.current_path
 
@@ -304,6 +305,9 @@ class LogicBlockHolder:
         self.loop_kill_paths = [
             self.loop_kill_paths[index] for index in not_indices
         ] + [all(self.loop_kill_paths[index] for index in indices)]
+        self.impossible_and_or_merges = [
+            self.impossible_and_or_merges[index] for index in not_indices
+        ] + [False]
         self.logic_node.set_outgoing_logic(
             self.logic_node.get_outgoing_logic_by_indices(
                 [self._path_indexes[index] for index in not_indices]
